@@ -2,6 +2,7 @@ package checks
 
 import (
 	"runtime"
+	"sort"
 	"testing"
 
 	"pgregory.net/rapid"
@@ -11,7 +12,7 @@ import (
 
 var specC10 = report.Spec{Property: "C10", Check: "C10",
 	Rule: "feature streams of length 0-200 (most below 40), each feature of a random geometry type (point, multipoint, linestring, multilinestring, collection, polygon, multipolygon with 1-4 parts) with a unique attribute tuple (int, float, string, nil); 1-5 targets with arbitrary distinct tile matrix ids; " +
-		"a generated outcome table for the fake snapping function: per (polygon part, target) absent / one polygon / 2-3 polygons, never an empty list (the caller's contract); a generated plan of yields and sleeps in source, snapping function and targets; GOMAXPROCS in {1,2,4,16}. " +
+		"a generated outcome table for the fake snapping function: per (polygon part, target) absent / one polygon / 2-3 polygons, never an empty list (the caller's contract); a generated plan of yields and sleeps in source, snapping function and targets; GOMAXPROCS in {1,2,4,16}; the stream is cut into 1-3 tables and ProcessFeatures is called once per table with the same target objects, like main.go does. " +
 		"Oracle: a sequential reference model computes per target the expected list of (attributes, geometry, tile matrix id); fake targets record what they receive; exact sequence equality (count, order, attribute identity, geometry deep equality, tile matrix id of every delivered feature = the target's id); ProcessFeatures returns and leaves no goroutine. " +
 		"Non-trivial: >= 2 targets, some polygon feature dropped for one target and kept for another, and some feature split into several polygons. Distinct by case content.",
 	Assumptions: []string{"the snapping function is a fake with marker geometries; the real one is covered by C13", "a run that does not return within 10 s is re-run in a fresh process with 60 s before it counts"}}
@@ -65,7 +66,20 @@ func genC10(t *rapid.T) PipeCase {
 	c.Delays = rapid.SliceOfN(rapid.SampledFrom([]int{0, 0, 0, 1, 1, 2, 3}), 1, 23).Draw(t, "delays")
 	c.Procs = rapid.SampledFrom([]int{1, 2, 4, 16}).Draw(t, "procs")
 	c.SlowFin = rapid.SliceOfN(rapid.Bool(), len(c.Targets), len(c.Targets)).Draw(t, "slowfin")
+	c.Breaks = drawBreaks(t, len(c.Feats))
 	return c
+}
+
+// drawBreaks cuts the stream into 1-3 tables.
+func drawBreaks(t *rapid.T, n int) []int {
+	var br []int
+	if n >= 2 {
+		for k := rapid.IntRange(0, 2).Draw(t, "tables"); k > 0; k-- {
+			br = append(br, rapid.IntRange(1, n-1).Draw(t, "break"))
+		}
+	}
+	sort.Ints(br)
+	return br
 }
 
 func pipeNonTrivial(c PipeCase) bool {
